@@ -360,18 +360,41 @@ def run_miri(ops, timeout=3600, env_extra=None):
     env.update(env_extra or {})
     os.makedirs(env["XDG_CONFIG_HOME"], exist_ok=True)
     script = "".join(json.dumps(o, ensure_ascii=True) + "\n" for o in list(ops) + [{"op": "quit"}])
+    out_f = tempfile.NamedTemporaryFile(dir=_workdir(), prefix="miri-out-", delete=False)
+    err_f = tempfile.NamedTemporaryFile(dir=_workdir(), prefix="miri-err-", delete=False)
+    rc = None
     try:
-        p = subprocess.run(["cargo", "+nightly", "miri", "run", "--offline"], cwd=HARNESS, env=env, input=script.encode("ascii"),
-                           stdout=subprocess.PIPE, stderr=subprocess.PIPE, timeout=timeout)
-    except subprocess.TimeoutExpired as e:
-        return [], (e.stderr or b"").decode("utf-8", "replace")[-4000:], None
-    results = []
-    for line in p.stdout.decode("utf-8", "replace").splitlines():
+        p = subprocess.Popen(["cargo", "+nightly", "miri", "run", "--offline"], cwd=HARNESS, env=env, stdin=subprocess.PIPE, stdout=out_f, stderr=err_f)
         try:
-            results.append(json.loads(line))
-        except ValueError:
+            p.stdin.write(script.encode("ascii"))
+            p.stdin.close()
+        except OSError:
             pass
-    return results, p.stderr.decode("utf-8", "replace")[-6000:], p.returncode
+        try:
+            rc = p.wait(timeout=timeout)
+        except subprocess.TimeoutExpired:
+            p.kill()
+            p.wait()
+            rc = None
+        out_f.flush()
+        err_f.flush()
+        results = []
+        with open(out_f.name, "rb") as f:
+            for line in f.read().decode("utf-8", "replace").splitlines():
+                try:
+                    results.append(json.loads(line))
+                except ValueError:
+                    pass          # a partial last line when the interpreter was stopped
+        with open(err_f.name, "rb") as f:
+            stderr = f.read().decode("utf-8", "replace")[-6000:]
+    finally:
+        for f in (out_f, err_f):
+            try:
+                f.close()
+                os.unlink(f.name)
+            except OSError:
+                pass
+    return results, stderr, rc
 
 
 # --------------------------------------------------------------------------------------------
